@@ -525,3 +525,178 @@ func GoodUncheckedLinkAfterRemove(d *D, files map[string][]byte) error {
 	d.prev = &v
 	return nil
 }
+
+// BadDeferCleanup: "don't leave a half-written version dir on failure" — but
+// the error of RemoveAll(*prev) is returned after the rename committed, so the
+// deferred clean-up deletes the live directory.
+func BadDeferCleanup(d *D, files map[string][]byte) (err error) {
+	v := fresh(d)
+	defer func() {
+		if err != nil {
+			os.RemoveAll(v)
+		}
+	}()
+	if err = os.MkdirAll(v, 0o755); err != nil {
+		return err
+	}
+	for n, b := range files {
+		if err = os.WriteFile(filepath.Join(v, n), b, 0o600); err != nil {
+			return err
+		}
+	}
+	if err = os.Remove(d.target + ".new"); err != nil && !errors.Is(err, fs.ErrNotExist) {
+		return err
+	}
+	if err = os.Symlink(v, d.target+".new"); err != nil {
+		return err
+	}
+	if err = os.Rename(d.target+".new", d.target); err != nil {
+		return err
+	}
+	if d.prev != nil {
+		if err = os.RemoveAll(*d.prev); err != nil {
+			return err
+		}
+	}
+	d.prev = &v
+	return nil
+}
+
+// BadDeferFlagTooLate: the flag that disarms the clean-up is set after the
+// last failing step instead of right after the rename.
+func BadDeferFlagTooLate(d *D, files map[string][]byte) (err error) {
+	v := fresh(d)
+	published := false
+	defer func() {
+		if err != nil && !published {
+			os.RemoveAll(v)
+		}
+	}()
+	if err = os.MkdirAll(v, 0o755); err != nil {
+		return err
+	}
+	for n, b := range files {
+		if err = os.WriteFile(filepath.Join(v, n), b, 0o600); err != nil {
+			return err
+		}
+	}
+	if err = os.Remove(d.target + ".new"); err != nil && !errors.Is(err, fs.ErrNotExist) {
+		return err
+	}
+	if err = os.Symlink(v, d.target+".new"); err != nil {
+		return err
+	}
+	if err = os.Rename(d.target+".new", d.target); err != nil {
+		return err
+	}
+	if d.prev != nil {
+		if err = os.RemoveAll(*d.prev); err != nil {
+			return err
+		}
+	}
+	published = true
+	d.prev = &v
+	return nil
+}
+
+// GoodDeferCleanupFlag: same clean-up, disarmed as soon as the rename succeeded.
+func GoodDeferCleanupFlag(d *D, files map[string][]byte) (err error) {
+	v := fresh(d)
+	published := false
+	defer func() {
+		if err != nil && !published {
+			os.RemoveAll(v)
+		}
+	}()
+	if err = os.MkdirAll(v, 0o755); err != nil {
+		return err
+	}
+	for n, b := range files {
+		if err = os.WriteFile(filepath.Join(v, n), b, 0o600); err != nil {
+			return err
+		}
+	}
+	if err = os.Remove(d.target + ".new"); err != nil && !errors.Is(err, fs.ErrNotExist) {
+		return err
+	}
+	if err = os.Symlink(v, d.target+".new"); err != nil {
+		return err
+	}
+	if err = os.Rename(d.target+".new", d.target); err != nil {
+		return err
+	}
+	published = true
+	if d.prev != nil {
+		if err = os.RemoveAll(*d.prev); err != nil {
+			return err
+		}
+	}
+	d.prev = &v
+	return nil
+}
+
+// GoodDeferCleanupArmed: clean-up controlled by a flag only.
+func GoodDeferCleanupArmed(d *D, files map[string][]byte) error {
+	v := fresh(d)
+	cleanup := true
+	defer func() {
+		if cleanup {
+			os.RemoveAll(v)
+		}
+	}()
+	var err error
+	if err = os.MkdirAll(v, 0o755); err != nil {
+		return err
+	}
+	for n, b := range files {
+		if err = os.WriteFile(filepath.Join(v, n), b, 0o600); err != nil {
+			return err
+		}
+	}
+	if err = os.Remove(d.target + ".new"); err != nil && !errors.Is(err, fs.ErrNotExist) {
+		return err
+	}
+	if err = os.Symlink(v, d.target+".new"); err != nil {
+		return err
+	}
+	if err = os.Rename(d.target+".new", d.target); err != nil {
+		return err
+	}
+	cleanup = false
+	if d.prev != nil {
+		if err = os.RemoveAll(*d.prev); err != nil {
+			return err
+		}
+	}
+	d.prev = &v
+	return nil
+}
+
+// GoodNamedResult: named result without any deferred clean-up.
+func GoodNamedResult(d *D, files map[string][]byte) (err error) {
+	v := fresh(d)
+	if err = os.MkdirAll(v, 0o755); err != nil {
+		return err
+	}
+	for n, b := range files {
+		if err = os.WriteFile(filepath.Join(v, n), b, 0o600); err != nil {
+			return err
+		}
+	}
+	if err = os.Remove(d.target + ".new"); err != nil && !errors.Is(err, fs.ErrNotExist) {
+		return err
+	}
+	if err = os.Symlink(v, d.target+".new"); err != nil {
+		return err
+	}
+	if err = os.Rename(d.target+".new", d.target); err != nil {
+		return err
+	}
+	if d.prev != nil {
+		if err = os.RemoveAll(*d.prev); err != nil {
+			return err
+		}
+	}
+	d.prev = &v
+	return nil
+}
